@@ -112,8 +112,18 @@ def mseq_(draw):
   return {'kind': 'mseq', 'items': items}
 
 
+@st.composite
+def _mixed(draw, tier):
+  which = draw(st.sampled_from(['regular'] * 43 + ['useq'] * 3 + ['mseq'] * 4))
+  if which == 'useq':
+    return draw(useq_())
+  if which == 'mseq':
+    return draw(mseq_())
+  return draw(strategy_(tier))
+
+
 def strategy(tier):
-  return st.one_of(*([strategy_(tier)] * 15 + [useq_(), mseq_()]))
+  return _mixed(tier)
 
 
 def _features(cfg):
